@@ -14,7 +14,7 @@ COMMON_NOTE = ("Trusted: Coq 8.16.1 kernel + vm_compute (no native_compute, no e
 
 # property -> (technique, level text, level note, design ref)
 CLAIMED = {
- "C01": ("Coq refinement theorems (serve over the row-level store = declarative spec_response over declared records) + per-case compile/serve/spec correspondence in Coq (vm_compute) against three real servers",
+ "C01": ("Coq refinement theorem C01_response_is_spec (+ _v2 via C02): serve over the compiled row-level store = declarative spec_response over the declared records for every response class; per-case compile/serve/spec correspondence in Coq (vm_compute) against three real servers",
          "Machine-checked theorems about an executable model of the lookup and serve path (v1 reader, v2 closest-key reader, handler) relating it to a short declarative specification over the declared records; the model runs over the real compiled database dumps and is compared with the responses of real CDB / RocksDB-v1 / RocksDB-v2 servers on generated data files and queries, the spec with the same responses.",
          COMMON_NOTE + "Weighted address choice is compared as a sub-multiset of the right size (C11 owns the draw); parts not yet proved carry the suffix _partial in Properties/C01.v.", "DESIGN.md section 6 C01"),
  "C02": ("Coq simulation theorem C02_v2_equals_v1 (closest-key reader = label-by-label reader on compiled stores, incl. seek_skip_sound and cache transparency), C02_three_backends; pairwise comparison of three real backends on generated files",
@@ -50,7 +50,7 @@ CLAIMED = {
  "C12": ("Coq invariant: every cache entry equals serve_core of the current generation; interleaving model shared with C05; cache-on vs cache-off real handlers on the same histories and schedules",
          "Cache wrapper modelled around an abstract serve_core; cached = uncached for all sequential histories; no stale answer after a completed reload for all schedules outside the insert-after-purge window (F6, refuted with a witness schedule); real handlers compared.",
          COMMON_NOTE, "DESIGN.md section 6 C12"),
- "C13": ("Coq theorem: the serve model (checked slice accessors = Go panics) never yields Panic on well-formed stores and wire-valid queries; reply-shape theorems; fuzzed wire-valid messages on three real backends",
+ "C13": ("Coq theorems C13_no_panic (all three readers: the serve model with checked slice accessors = Go panics never yields Panic nor runs out of fuel; v2 under the decidable guard wf_store_v2, which compiled stores satisfy and which is re-checked on every real dump), reply shape, BADVERS; fuzzed wire-valid messages incl. a UDP size class on three real backends",
          "Every index/slice expression of the serve path is modelled with an explicit Panic outcome; absence of Panic and reply shape (ID, question, QR, BADVERS) proved for all queries; generated wire-valid messages run against real handlers with panic recording.",
          COMMON_NOTE + "Packing/truncation by miekg/coredns trusted; open finding F22 (BADVERS reply without question).", "DESIGN.md section 6 C13"),
  "C14": ("Coq lockset theorem over an access table REGENERATED from the Go source on every run (translator gotab); iterator-pool interleaving model; race-detector stress harness for witnesses",
